@@ -69,6 +69,19 @@ class Ref:
             return pos, stack, pairs
         mod, body = self.rules[name]
         trivia = name in ("WHITESPACE", "COMMENT")
+        if trivia:
+            self.in_trivia = getattr(self, "in_trivia", 0) + 1
+            try:
+                return self._call(name, mod, body, trivia, pos, stack, atom, look)
+            finally:
+                self.in_trivia -= 1
+        if getattr(self, "in_trivia", 0) and mod in ("", "@"):
+            # pest's generator wraps trivia bodies in state.atomic(Atomic), which would hide the pair of a normal
+            # rule called there; C04's statement only says the bodies are MATCHED atomically, so this is not asserted
+            raise RefUnsupported("pair of a normal / @ rule called inside a WHITESPACE / COMMENT body (not pinned by the statement)")
+        return self._call(name, mod, body, trivia, pos, stack, atom, look)
+
+    def _call(self, name, mod, body, trivia, pos, stack, atom, look):
         if mod == "_":
             inner_atom = A if trivia else atom
             return self.ev(body, pos, stack, inner_atom, look)
